@@ -15,6 +15,9 @@ import (
 type c18Case struct {
 	L     Layout
 	Order []int // which files the dump references, in frame order (indexes into L.truths)
+	// Race: the frames are the operation stacks of a race report whose creation stacks start in
+	// a file under no root (the go-test generated main), instead of a goroutine dump
+	Race bool `json:",omitempty"`
 }
 
 const testMainPath = "/tmp/go-build123/b001/_test/_testmain.go"
@@ -65,7 +68,24 @@ func c18Resolve(c *c18Case, base string) (*stack.Snapshot, []fileTruth, []*stack
 	}
 	d := dumpFor(refs, order)
 	opts := &stack.Opts{GuessPaths: true, LocalGOROOT: c.L.localGoroot(base), LocalGOPATHs: c.L.localGopaths(base)}
-	snap, err := parseDump(&d, opts)
+	var snap *stack.Snapshot
+	var err error
+	if c.Race && len(d.Gs) >= 2 {
+		var r RaceM
+		for i, g := range d.Gs {
+			r.Ops = append(r.Ops, RaceOp{Write: i%2 == 0, Addr: 0xc000012340, ID: g.ID, Frames: g.Frames})
+			r.Secs = append(r.Secs, RaceSec{ID: g.ID, Frames: []FrameM{
+				{Pkg: "main", Name: "spawn", File: g.Frames[0].File, Line: 3, PCOff: 1},
+				{Pkg: "main", Name: "main", File: "/tmp/go-build77/b001/_testmain.go", Line: 47, PCOff: 1}}})
+		}
+		snap, err = scanAloneOpts(r.Print(), opts)
+		if snap == nil || len(snap.Goroutines) != len(d.Gs) {
+			return nil, nil, nil, fmt.Errorf("HARNESS: generated race report does not parse: %v", err)
+		}
+		err = nil
+	} else {
+		snap, err = parseDump(&d, opts)
+	}
 	if err != nil {
 		return nil, nil, nil, err
 	}
@@ -193,7 +213,7 @@ var c18 = Check[c18Case]{
 			idx[i] = i
 		}
 		perm := rapid.Permutation(idx).Draw(t, "refs")
-		return c18Case{L: l, Order: perm[:k]}
+		return c18Case{L: l, Order: perm[:k], Race: oneIn(t, 4, "raceReport")}
 	},
 	Oracle: c18Oracle,
 	Obs: func(c c18Case) Obs {
